@@ -345,3 +345,47 @@ def mon_c19_wire(case_line, acts):
                         'Subscription Identifier' in e or 'unknown property' in e:
                     out.append(V('a packet with an illegal property was sent: %s (%s)' % (e, p['raw'].hex()[:80])))
     return out
+
+
+# ---------------------------------------------------------------- C17
+def mon_c17(case_line, acts):
+    """while a packet stays retained its bytes never change except for the DUP bit (bit 3 of the first byte);
+    entries never overlap and stay inside the arena"""
+    out = []
+    prev = {}
+    prev_gen = None
+    for i, a in enumerate(acts):
+        st = a.state or {}
+        cur = {}
+        spans = []
+        for x in list_field(st.get('ret', '[]')):
+            f = x.split(':')
+            if len(f) < 5:
+                continue
+            pid, off, ln, hexb = f[0], int(f[1]), int(f[2]), f[4]
+            if hexb == '!':
+                out.append(V('retained entry %s lies outside the arena at action #%d' % (pid, i)))
+                continue
+            cur[pid] = hexb
+            spans.append((off, off + ln, pid))
+        cap = int(st.get('cap', '0') or 0)
+        used = int(st.get('used', '0') or 0)
+        spans.sort()
+        for (a0, a1, p0), (b0, b1, p1) in zip(spans, spans[1:]):
+            if a1 > b0:
+                out.append(V('retained entries %s and %s overlap at action #%d' % (p0, p1, i)))
+        if spans and spans[-1][1] > max(used, 0) or used > cap:
+            out.append(V('arena bookkeeping broken at action #%d: used=%d cap=%d last end=%s' % (i, used, cap, spans[-1][1] if spans else '-')))
+        if st.get('gen') == prev_gen:
+            for pid, hexb in cur.items():
+                if pid in prev:
+                    old = prev[pid]
+                    norm = lambda h: ('%02x' % (int(h[:2], 16) & ~8)) + h[2:] if h else h
+                    if norm(old) != norm(hexb):
+                        # the same identifier may have been acknowledged and reallocated within one action
+                        if a.code in (1, 2, 3) and a.result and a.result.startswith('ok op'):
+                            continue
+                        out.append(V('bytes of retained packet %s changed at action #%d: %s -> %s' % (pid, i, old[:60], hexb[:60])))
+        prev = cur
+        prev_gen = st.get('gen')
+    return out
